@@ -1,6 +1,7 @@
 package sim
 
 import (
+	"runtime"
 	"encoding/json"
 	"fmt"
 	"os"
@@ -106,6 +107,12 @@ func RunScenario(t *testing.T, sc *Scenario, src simrt.Source, keepTape bool) (r
 		res.TraceHash = s.TraceHash
 		res.Yields, res.Preempts, res.Steps = s.Yields, s.Preempts, s.Steps
 		res.Alive = s.AliveTasks()
+		if os.Getenv("VERIF_STACKS") != "" && len(res.Alive) > 0 {
+			// debugging aid: where are the tasks that are still alive? (all goroutines of the process)
+			buf := make([]byte, 1<<20)
+			buf = buf[:runtime.Stack(buf, true)]
+			fmt.Printf("LOCK-HOLDERS %v\nSTACKS\n%s\n", s.LockHolders(), buf)
+		}
 		res.LastSite = simrt.SiteString(s.LastSite)
 		res.Evs = w.Evs
 		res.NEvents = len(w.Evs)
